@@ -23,7 +23,7 @@ ASSUMPTIONS = [
     "expected/unexpected labels are not compared (the generated negative-predicate label is spelled "
     "differently)",
 ]
-SIZES = {"quick": 150, "thorough": 4000}
+SIZES = {"quick": 400, "thorough": 4000}
 
 
 def compare(i_out, g_out):
